@@ -9,6 +9,7 @@ mod c02;
 mod c03;
 mod c04;
 mod c05;
+mod c06;
 mod c08;
 mod c09;
 mod tiered;
@@ -69,6 +70,8 @@ fn main() {
             "C05" => c05::replay(&plan, &mut sum),
             "C09" => c09::replay(&plan, &mut sum),
             "C04" => c04::replay("C04", &plan, &mut sum),
+            "C06" => c06::replay("C06", &plan, &mut sum),
+            "C07" => c06::replay("C07", &plan, &mut sum),
             "C20" => c04::replay("C20", &plan, &mut sum),
             _ => Err(format!("unknown check {}", check)),
         };
@@ -86,6 +89,8 @@ fn main() {
             "C05" => c05::run_batch(seed, start, count, &tier, budget_ms, &mut sum),
             "C09" => c09::run_batch(seed, start, count, &tier, budget_ms, &mut sum),
             "C04" => c04::run_batch("C04", seed, start, count, &tier, budget_ms, &mut sum),
+            "C06" => c06::run_batch("C06", seed, start, count, &tier, budget_ms, &mut sum),
+            "C07" => c06::run_batch("C07", seed, start, count, &tier, budget_ms, &mut sum),
             "C20" => c04::run_batch("C20", seed, start, count, &tier, budget_ms, &mut sum),
             _ => {
                 eprintln!("unknown check {}", check);
